@@ -162,7 +162,7 @@ class Ctx:
 SPEC_OF_KIND = {'op': 'TraceOps', 'opc': 'TraceOps', 'call': 'TraceOps', 'subst': 'TraceOps', 'relabel': 'TraceOps', 'mix': 'TraceOps',
                 'resolve': 'TraceOps', 'bcast': 'TraceOps', 'getitem': 'TraceOps', 'setitem': 'TraceOps', 'cert': 'TraceOps',
                 'table': 'TraceAlgebra', 'reject': 'TraceAlgebra', 'construct': 'TraceConstruct', 'poly': 'TracePolynomial',
-                'matrixrep': 'TraceMatrix', 'exprmat': 'TraceMatrix', 'widget': 'TraceGraph'}
+                'adj': 'TraceInverse', 'matrixrep': 'TraceMatrix', 'exprmat': 'TraceMatrix', 'widget': 'TraceGraph'}
 HEADERLESS = {'TraceAlgebra', 'TraceConstruct', 'TracePolynomial', 'TraceMatrix'}
 
 
